@@ -395,3 +395,34 @@ def run(model, col, tier):
     sub = Collector("C19")
     c19.check_signed(model, sub, "R07.7")
     col.obligations.extend(sub.obligations)
+    # every count, size, index and name length of the module is an unsigned LEB128 (= all of C19's encoding rules)
+    sub = Collector("C19")
+    c19.run(model, sub, "quick")
+    seen_ = {(o.rule, o.construct) for o in col.obligations}
+    for ob in sub.obligations:
+        if ("R07.7", ob.construct) not in seen_:
+            ob.detail = f"[{ob.rule}] " + (ob.detail or "")
+            ob.rule = "R07.7"
+            col.obligations.append(ob)
+    # ---------------- R07.8 nothing of one function / one compilation leaks into the next ------------
+    # per-function tables of v_Function are created in v_Function
+    filled = {}
+    for n in ast.walk(vf):
+        if isinstance(n, ast.Assign) and isinstance(n.targets[0], ast.Subscript) and isinstance(n.targets[0].value, ast.Name):
+            filled.setdefault(n.targets[0].value.id, n)
+    col.floor("R07.8", "per-function tables of v_Function", len(filled), 2)
+    for nm, site in sorted(filled.items()):
+        vals = find_assign(vf, nm)
+        fresh = bool(vals) and all(isinstance(v, (ast.Dict, ast.DictComp, ast.List, ast.ListComp)) or (isinstance(v, ast.Call) and dotted(v.func) in ("dict", "list", "collections.OrderedDict")) for v in vals)
+        col.check(fresh, "R07.8", f"{GEN}::v_Function table `{nm}` is per function", "created empty in v_Function",
+                  f"`{nm}` is bound to {[unparse(v)[:40] for v in vals]}, not to a container created in v_Function: entries of previously generated functions are still in it "
+                  "(locals are declared with another function's register types)", GEN, site)
+    # the generator and the module it fills are created per compilation; no module- or class-level container in the emitter
+    from . import c18
+
+    sub = Collector("C18")
+    c18.run(model, sub, "quick")
+    for ob in sub.obligations:
+        if ob.rule == "R18.2" and any(k in ob.construct for k in ("GenerateWasm", "WebAssembly", "wasm")):
+            ob.rule = "R07.8"
+            col.obligations.append(ob)
